@@ -246,3 +246,29 @@ func Key(f Forest) string {
 
 // Equal compares two forests structurally.
 func Equal(a, b Forest) bool { return Key(a) == Key(b) }
+
+// NormSummary makes dry-run reports comparable independently of the wording of the count line: a line that follows
+// a blank line and contains exactly two integers ("3 directories, 1 files") becomes "<3,1>". The statement fixes
+// the counts and their order (directories, files), not the words around them.
+func NormSummary(report string) string {
+	lines := strings.Split(report, "\n")
+	for i := 1; i < len(lines); i++ {
+		if lines[i-1] != "" {
+			continue
+		}
+		var nums []string
+		cur := ""
+		for _, r := range lines[i] + " " {
+			if r >= '0' && r <= '9' {
+				cur += string(r)
+			} else if cur != "" {
+				nums = append(nums, cur)
+				cur = ""
+			}
+		}
+		if len(nums) == 2 {
+			lines[i] = "<" + nums[0] + "," + nums[1] + ">"
+		}
+	}
+	return strings.Join(lines, "\n")
+}
